@@ -153,3 +153,11 @@ _p('C17', ['r_arena'],
    'ArenaSet::insert allocates only on a miss; every Module* collection delegates delete/get to its arena with its own id. '
    'id-arena itself has no removal API (ids are never recycled).',
    not_decided='behaviour over concrete operation histories (not executed); iteration order is id-arena\'s (append order, trusted)')
+
+_p('C18', ['r_effects', 'r_emitorder'],
+   'Effect analysis of the two replacement edits: each is evaluated with nothing inlined, so the trace of a successful world '
+   'is the complete list of its effects on the module. replace_imported_func must return its own id, delete exactly the '
+   'import found by get_imported_func(fid) (by id), store only funcs[fid].kind, and build with the (params, results) of '
+   'the function\'s own type; replace_exported_func must add one function, retarget only the export found by '
+   'get_exported_func(fid), delete nothing and leave the original untouched. Validity of the result rests on R-EMITORDER.',
+   not_decided='that the user-supplied body is well typed; behaviour of callers at run time')
